@@ -261,6 +261,19 @@ func c05main(c *Ctx) {
 				}
 				c.R.Add("parent_and_child_binding_one_key", 1)
 			}
+			// the printf-style verbs without operands: the message is what fmt makes of the format ("%%" is one percent sign)
+			if idx%11 == 6 {
+				pm := recCase{name: cs.name, msg: "cache is 100% warm, 7% cold", lvl: slog.WarnLevel, caller: slog.GetFlags()&slog.Lcaller != 0}
+				lg := newRoot(cs.name, FLogfmt, w, slog.AlwaysLevel)
+				evs := capture(log, func() { _ = lg.Warnf("cache is 100%% warm, 7%% cold") })
+				if len(evs) == 1 {
+					if vs := c05check(evs[0].Data, pm); len(vs) > 0 {
+						c.R.Violation(idx, vs[0].clause, "C05/"+vs[0].clause+"/printf-verb-without-operands", fmt.Sprintf("Warnf(\"cache is 100%%%% warm, 7%%%% cold\"): %s\npayload: %s", vs[0].detail, q(clip(string(evs[0].Data), 500))), pm.desc(FLogfmt))
+						return
+					}
+					c.R.Add("printf_verbs_without_operands", 1)
+				}
+			}
 			// a line through a std log bridge built on a logfmt logger - the EMPTY line included: one record whose message is
 			// the line without its line break
 			if idx%7 == 3 {
